@@ -42,6 +42,7 @@ T0 = 1000.0  # virtual start
 
 class Ext(Event):
     n: int
+    k: int | None = None
 
 
 class Boom(Exception):
@@ -61,6 +62,8 @@ def build_workflow(case: dict, obs: "Obs") -> Workflow:
     works for dur[n] seconds, optionally fails once (retry after `retry_wait`), optionally sends
     internal events, appends n to the stored list, and ends the run on n == final"""
     spec = case["wf"]
+    if spec.get("kind") == "waiter":
+        return build_waiter_workflow(case, obs)
     durs = {int(k): v for k, v in spec.get("dur", {}).items()}
     internal = {int(k): v for k, v in spec.get("internal", {}).items()}
     fail_once = set(spec.get("fail_once", []))
@@ -114,6 +117,36 @@ def build_workflow(case: dict, obs: "Obs") -> Workflow:
                 obs.step_event("exit:" + status, "b", n)
 
     return IdleWF(timeout=None)
+
+
+def build_waiter_workflow(case: dict, obs: "Obs") -> Workflow:
+    """one step (num_workers `nw`) that works for `gate` seconds, then waits for Ext with requirements {"k": req_k};
+    the run ends with [n, k] of the event the wait returned"""
+    spec = case["wf"]
+    gate = spec.get("gate", 0)
+    req_k = spec.get("req_k", 1)
+
+    class WaitWF(Workflow):
+        @step(num_workers=spec.get("nw", 1))
+        async def w(self, ctx: Context, ev: StartEvent) -> StopEvent | None:
+            obs.step_event("enter", "w", 0)
+            status = "ok"
+            try:
+                if gate:
+                    await asyncio.sleep(gate)
+                resp = await ctx.wait_for_event(Ext, requirements={"k": req_k}, waiter_id="w1")
+                obs.step_event("done", "w", resp.n)
+                return StopEvent(result=[resp.n, resp.k])
+            except asyncio.CancelledError:
+                status = "cancelled"
+                raise
+            except BaseException as e:
+                status = "raise:" + type(e).__name__
+                raise
+            finally:
+                obs.step_event("exit:" + status, "w", 0)
+
+    return WaitWF(timeout=None)
 
 
 # --------------------------------------------------------------------------
@@ -781,11 +814,12 @@ def run_case(case: dict, horizon: float | None = None) -> dict:
             await asyncio.sleep(at)
             for n in ns:  # equal send times: plan order (timer ties would otherwise decide)
                 try:
-                    await st.send(obs.handler_id, Ext(n=n))
+                    await st.send(obs.handler_id, Ext(n=n, k=ks.get(n)))
                     obs.events.append({"ev": "send_accepted", "n": n, "t": obs.now_ms(), "active": st.active(obs.run_id)})
                 except Exception as e:
                     obs.events.append({"ev": "send_rejected", "n": n, "t": obs.now_ms(), "error": f"{type(e).__name__}: {e}"})
 
+        ks = {p["n"]: p.get("k") for p in plan}
         tasks = [asyncio.create_task(sender(at, ns)) for at, ns in _group(plan)]
         await asyncio.sleep(end)
         obs.draining = True
@@ -793,7 +827,15 @@ def run_case(case: dict, horizon: float | None = None) -> dict:
             if not obs.blocked:
                 break
             await asyncio.sleep(0)
-        await asyncio.sleep(2 * tau + 1.0)
+        # let everything that was delivered (possibly late, by the scheduler's choice) be worked off
+        work = sum(float(v) for v in case["wf"].get("dur", {}).values()) + float(case["wf"].get("start_dur", 0))
+        work += 2 * float(case["wf"].get("retry_wait", 0.5)) * len(case["wf"].get("fail_once", []))
+        await asyncio.sleep(2 * tau + 1.0 + 1.5 * work)
+        for _ in range(200):
+            if not obs.blocked:
+                break
+            await asyncio.sleep(0)
+        await asyncio.sleep(2 * tau + 0.5)
         for t in tasks:
             if not t.done():
                 t.cancel()
@@ -838,10 +880,11 @@ def run_reference(case: dict) -> dict:
             await asyncio.sleep(at)
             for n in ns:
                 try:
-                    await st.send("h1", Ext(n=n))
+                    await st.send("h1", Ext(n=n, k=ks.get(n)))
                 except Exception:
                     pass
 
+        ks = {p["n"]: p.get("k") for p in plan}
         tasks = [asyncio.create_task(sender(at, ns)) for at, ns in _group(plan)]
         await asyncio.sleep(end)
         for t in tasks:
